@@ -106,7 +106,26 @@ func main() {
 				named[c.Value] = c.Name
 			}
 		}
-		if e.Bitmask {
+		// an enum is treated as a bitmask when the generated code says so (the scan's syntactic
+		// heuristic) or when it behaves like one (two defined single-bit flags OR-ed render as
+		// their names joined by " | "): a re-implementation of the rendering must not turn the
+		// ordinary-enum expectations loose on a bitmask
+		isBitmask := e.Bitmask
+		if !isBitmask {
+			var single []enumreg.Const
+			for _, c := range e.Consts {
+				if c.Value != 0 && c.Value&(c.Value-1) == 0 {
+					single = append(single, c)
+				}
+			}
+			sort.Slice(single, func(a, b int) bool { return single[a].Value < single[b].Value })
+			if len(single) >= 2 {
+				if txt, err := e.Marshal(single[0].Value | single[1].Value); err == nil && strings.Contains(txt, " | ") {
+					isBitmask = true
+				}
+			}
+		}
+		if isBitmask {
 			// flags = constants with exactly one bit set; (multi-bit constants are combinations)
 			var flags []uint64
 			flagName := map[uint64]string{}
